@@ -58,11 +58,19 @@ Direct(cs, c) == UNION {IF cs[c].items[i].t = "ref" THEN {cs[c].items[i].c}
                          ELSE IF cs[c].items[i].t = "grp" THEN {cs[c].items[i].refs[j] : j \in DOMAIN cs[c].items[i].refs}
                          ELSE {} : i \in DOMAIN cs[c].items}
 Reach(cs, c) == {c} \cup UNION {Reach(cs, d) : d \in Direct(cs, c)}
+\* the same without the edge from a clone to its original (whether a clone follows later appends to its original is left
+\* open by the properties: a view does, a true copy does not)
+RECURSIVE ReachNC(_, _)
+DirectNC(cs, c) == UNION {IF cs[c].items[i].t = "ref" /\ cs[c].items[i].v # "clone" THEN {cs[c].items[i].c}
+                           ELSE IF cs[c].items[i].t = "grp" THEN {cs[c].items[i].refs[j] : j \in DOMAIN cs[c].items[i].refs}
+                           ELSE {} : i \in DOMAIN cs[c].items}
+ReachNC(cs, c) == {c} \cup UNION {ReachNC(cs, d) : d \in DirectNC(cs, c)}
 
 Sym(p) == PathInfo[p].sym
 Item(t, v) == [t |-> t, v |-> v, p |-> "", c |-> 0, refs |-> <<>>]
 QualItem(p) == [t |-> "qual", v |-> Sym(p), p |-> p, c |-> 0, refs |-> <<>>]
 RefItem(c)  == [t |-> "ref", v |-> "", p |-> "", c |-> c, refs |-> <<>>]
+CloneItem(c) == [t |-> "ref", v |-> "clone", p |-> "", c |-> c, refs |-> <<>>]     \* the item a clone holds: its original
 GrpItem(g, rs) == [t |-> "grp", v |-> g, p |-> "", c |-> 0, refs |-> rs]
 Fresh == "t" \o ToString(ntok + 1)
 
@@ -120,7 +128,7 @@ AddRef(c, d) == /\ Step /\ Room(c) /\ c \notin Reach(cells, d)
                 /\ UNCHANGED <<files, ntok, obs, bound>>
 \* s.Clone(): a new Statement whose only item is the original
 CloneCell(c) == /\ Step /\ Len(cells) < MaxCells /\ H("Clone", 0, c, 0, "", "", <<>>)
-                /\ cells' = Append(cells, [items |-> <<RefItem(c)>>])
+                /\ cells' = Append(cells, [items |-> <<CloneItem(c)>>])
                 /\ UNCHANGED <<files, ntok, obs, bound>>
 
 (* ------------------------------ File calls ------------------------------- *)
